@@ -173,6 +173,8 @@ def gen_spec(rng, scale_kind=None, n=None, direction=None, c08=False, text_class
         lab["density"] = rng.choice([0.5, 0.75, 1])
     if rng.random() < 0.2:
         lab["stubWidth"] = rng.choice([0, 1, 4])
+    if rng.random() < 0.04:
+        lab[rng.choice(["nodeHeight", "layerGap"])] = rng.choice([5, 200])  # renderer option names inside the ENGINE options: not the engine's to read
     if lab or rng.random() < 0.5:
         opts["labella"] = lab
     if rng.random() < 0.25:
@@ -255,7 +257,10 @@ def gen_spec(rng, scale_kind=None, n=None, direction=None, c08=False, text_class
             d["when"] = d["time"]
     if dense:
         pass
-    return {"data": data, "options": opts}
+    spec = {"data": data, "options": opts}
+    if tkind in ("datetime", "mixed") and rng.random() < 0.08:
+        spec["stamp_like"] = True
+    return spec
 
 
 def normalise_time(t):
@@ -271,6 +276,19 @@ def normalise_time(t):
 
 def build(spec, scale_objects=None):
     """Fresh Python objects for one timeline: (data, options, scale or None)."""
+    data, options, scale = _build(spec, scale_objects)
+    if spec.get("stamp_like"):
+        # the datetime values are handed over as instances of a datetime subclass (as pandas.Timestamp is)
+        from workloads.timedom import as_sub
+
+        for d in data:
+            for key in ("time", "when"):
+                if type(d.get(key)) is dt.datetime:
+                    d[key] = as_sub(d[key])
+    return data, options, scale
+
+
+def _build(spec, scale_objects=None):
     from labella.scale import LinearScale, TimeScale
 
     data = copy.deepcopy(spec["data"])
